@@ -2,8 +2,8 @@
 
 PROP = dict(
     level="proof",
-    lean_modules=['PopsModel.Props.C11', 'PopsModel.Props.C11Hosts', 'PopsModel.Props.NonVacuous.Host', 'PopsModel.Props.C11Removals'],
-    theorems=['Pops.C11_who_dies', 'Pops.C11_rate_zero', 'Pops.C11_eventual_death', 'Pops.C11_per_host', 'Pops.C11_eventual_death_with_removals', 'Pops.C11_eventual_death_infected', 'Pops.C11_eventual_death_history', 'Pops.C11_lethal_is_removal', 'Pops.C11_survival_is_removal', 'Pops.C11_move_source_is_removal', 'Pops.C11_latency_step_is_addition', 'Pops.C11_landing_is_addition', 'Pops.C11_move_target_is_arrival', 'Pops.C11_simpleTreat_is_removal', 'Pops.C11_pesticideTreat_is_removal', 'Pops.C11_ratio_treatment_breaks_i'],
+    lean_modules=['PopsModel.Props.C11', 'PopsModel.Props.C11Hosts', 'PopsModel.Props.NonVacuous.Host', 'PopsModel.Props.C11Removals', 'PopsModel.Props.C11Cohortwise'],
+    theorems=['Pops.C11_who_dies', 'Pops.C11_rate_zero', 'Pops.C11_eventual_death', 'Pops.C11_per_host', 'Pops.C11_eventual_death_with_removals', 'Pops.C11_eventual_death_infected', 'Pops.C11_eventual_death_history', 'Pops.C11_lethal_is_removal', 'Pops.C11_survival_is_removal', 'Pops.C11_move_source_is_removal', 'Pops.C11_latency_step_is_addition', 'Pops.C11_landing_is_addition', 'Pops.C11_move_target_is_arrival', 'Pops.C11_simpleTreat_is_removal', 'Pops.C11_pesticideTreat_is_removal', 'Pops.C11_ratio_treatment_breaks_i', 'Pops.C11_cohort_tracking', 'Pops.C11_eventual_death_cohortwise_with_removals', 'Pops.C11_generation_emptied', 'Pops.C11_initial_cohort_emptied', 'Pops.C11_eventual_death_cohortwise'],
     commands=['hp.mortality', 'mh.mortality', 'mm.mortality'],
     runs={
         "quick": [('h_host', 'pool', 0, 1500), ('h_model', 'model', 0, 400), ('h_multi', 'pool', 0, 500), ('h_mmodel', 'multi', 0, 150), ('h_sim', 'sim', 0, 150)],
